@@ -30,6 +30,21 @@ CLAIMED = {
  'C13': ("proptest: valid-by-construction zones + exactly one of 10 defect classes, random multi-defect tuples, leap-spacing enumeration up to i64::MAX, byte-exhaustive designation enumeration; validity-predicate oracle; owned vs borrowed differential",
          "Exploration: generated valid zones must be accepted by both constructors and give back their parts; each single defect must be refused with its specific error; multi-defect tuples must be refused with one of the violated clauses' errors; both constructors always agree. LocalTimeType::new: every byte at every position for lengths 3..7, lengths 0..10, offset i32::MIN.",
          "Validity predicate transcribed from the property; three unspecified corners (rule cannot be evaluated at the last transition) carry no Ok/Err claim.", "DESIGN.md §5 C13"),
+ 'C03': ("bounded-exhaustive (table length x query rank x trailer) + proptest over valid zones (incl. zic-aligned and leap-second zones) + big tables, against a linear-scan timeline model; pointer identity of the returned slot",
+         "Exploration: complete for the hand-rolled binary search over all table lengths 0..=256 (thorough 600) x every rank x 3 trailers; random valid zones anywhere in i64 queried at every transition -1/0/+1 on both time scales and extremes; tables up to 2.6e5 entries. The returned reference must be the expected slot (ptr::eq), errors by kind, from_timespec fields = O-cal(instant+offset).",
+         "O-zone/O-leap/O-rule models; leap zones within 2^32 s of the i64 limits and 'overlapping' rules carry no claim.", "DESIGN.md §5 C03"),
+ 'C05': ("proptest over valid zones of all shapes (incl. dense, leap-second, zic-aligned zones) x model-derived local times; two oracles: timeline model and round trip through the crate's own forward lookup (metamorphic/inverse relation)",
+         "Exploration: for each generated zone ~48 local times placed on every event's two clocks +- seconds/hours, New Year, random and second-60 variants; the valid results must equal, in order and with their types, the instants at which the zone's clock shows that time (model), convert back through the forward lookup to the searched fields, be complete and duplicate-free w.r.t. the forward lookup, and be unique() exactly when single.",
+         "Zones valid by construction from O-leap/O-rule; 'overlapping' rules excluded as known finding KF-C05-OVERLAP (probe printed); |year| > i32::MAX-200: only error kind asserted.", "DESIGN.md §5 C05"),
+ 'C06': ("same generated cases as C05, checked against the model's event list: exact gap entries, strict ascending order, earliest/latest/unique semantics",
+         "Exploration: exactly one Skipped entry per event with off_after > off_before and T+off_before <= L < T+off_after (both halves = T on the clock before/after, same nanoseconds), none otherwise (coincident rule transitions cancel; last table event ignored without trailer); whole list strictly ascending; earliest/latest/unique as documented.",
+         "Same as C05; zones where two table transitions take effect at the same UTC instant (one on an inserted leap second) are excluded and counted.", "DESIGN.md §5 C06"),
+ 'C14': ("proptest over every constructor (fields+type, instant+type, total nanoseconds, projection between generated zones, range-edge searches) + invariant monitor on every search entry; pairwise comparison over pools",
+         "Exploration: the invariant 'fields = O-cal(unix + offset), second 60 = next minute, getters consistent' is checked on every DateTime produced by any constructor and by the search (also inside C03/C05/C06/C17); acceptance/refusal of DateTime::new and from_timespec_and_local decided by the model; projection preserves (unix, ns) and yields the model's type; ==/partial_cmp depend only on (unix, ns) over all pairs of pools; searches at the range ends never return instants outside the range.",
+         "O-cal/O-zone; from_timespec_and_local's documented acceptance rule (instant+offset representable).", "DESIGN.md §5 C14"),
+ 'C17': ("same generated cases as C05 x every buffer length 0..=k+2 with stale pre-fill from the previous search (2-step histories); differential against the allocating search, field by field",
+         "Exploration: find_n into buffers of every length n in 0..=k+2, pre-filled with the previous search's entries: data() = first min(n,k) results (deep field compare incl. both halves of gaps), count()=k, is_exhaustive iff n>=k, untouched tail slots, same error kind, and unique/earliest/latest equal to the allocating search when exhaustive.",
+         "The allocating search is the reference (itself checked by C05/C06).", "DESIGN.md §5 C17"),
 }
 
 def entry(pid):
